@@ -30,6 +30,15 @@ def make_experiments(d, seed):
             for _ in range(4):
                 sw.make_read("chrU", [(intr[0] - 60, intr[0] - 1), (intr[1] + 1, intr[1] + 60)], name=sw.new_read_name("s"))
         sw.write_bam(os.path.join(d, "short.bam"))
+        # a second short-read file with the SAME base name in another folder: its reads support the first junction exactly where the long
+        # reads have it (experiment B uses this one)
+        sw2 = World(seed)
+        sw2.chroms, sw2.chrom_order = w.chroms, w.chrom_order
+        for intr in ((2401, 2995), (3301, 3999)):
+            for _ in range(4):
+                sw2.make_read("chrU", [(intr[0] - 60, intr[0] - 1), (intr[1] + 1, intr[1] + 60)], name=sw2.new_read_name("s"))
+        os.makedirs(os.path.join(d, "alt"), exist_ok=True)
+        sw2.write_bam(os.path.join(d, "alt", "short.bam"))
     w.write_fasta(os.path.join(d, "g.fa"))
     w.write_gtf(os.path.join(d, "a.gtf"))
     reads = [r for r in w.reads]
@@ -82,7 +91,7 @@ def write_yaml(path, exps, unlabeled=(), illumina=()):
         f.write("[\n  data format: \"bam\",\n")
         items = []
         for name, files in exps:
-            ill = (',\n    illumina bam: ["%s"]' % os.path.join(os.path.dirname(path), "short.bam")) if name in illumina else ""
+            ill = (',\n    illumina bam: ["%s"]' % os.path.join(os.path.dirname(path), "alt" if name == "B" else "", "short.bam")) if name in illumina else ""
             if not files:
                 items.append("  {\n    name: \"%s\",\n    long read files: []%s\n  }" % (name, ill))
                 continue
@@ -170,12 +179,12 @@ def run(chk, scratch):
                     (["A", "B"], ("one", "skew"), 1, "yaml"), (["B", "A"], ("skew", "one"), 1, "yaml"), (["C", "A", "B"], ("one", "skew", "two"), 4, "list"),
                     (["A", "B"], "skew", 4, "yaml"), (["A", "B"], "two", 1, "yaml-unl:B"), (["B", "A", "C"], "two", 2, "yaml-unl:B,C"),
                     (["C", "A"], ("one", "two"), 1, "yaml-unl:C"), (["B", "B "], "one", 1, "yaml"), (["B ", "A", "B"], "two", 3, "yaml"), (["SKIP", "A", "B"], "one", 1, "yaml-ill:SKIP,A"), (["A", "SKIP", "B", "C"], "one", 2, "yaml-ill:A,C"),
-                    (["A", "A2", "B"], "one", 1, "list-rgtable"), (["B", "A"], "one", 3, "yaml-rgtable")]
+                    (["A", "A2", "B"], "one", 1, "list-rgtable"), (["B", "A"], "one", 3, "yaml-rgtable"), (["A", "B"], "one", 1, "yaml-ill:A,B"), (["B", "A"], "one", 1, "yaml-ill:A,B")]
         else:
             seqs = [(["A", "B", "C"], "one", 1, "yaml"), (["B", "A"], "one", 4, "list"), (["A", "B"], "two", 1, "yaml"),
                     (["A", "A2"], "one", 1, "yaml"), (["A", "B"], ("one", "skew"), 1, "yaml"), (["B", "A"], ("skew", "one"), 2, "list"),
                     (["A", "B"], "two", 2, "yaml-unl:B"), (["B", "B "], "one", 2, "yaml"), (["SKIP", "A", "B"], "one", 1, "yaml-ill:SKIP,A"),
-                    (["A", "A2", "B"], "one", 1, "list-rgtable")]
+                    (["A", "A2", "B"], "one", 1, "list-rgtable"), (["A", "B"], "one", 1, "yaml-ill:A,B")]
         # stand-alone runs (per experiment x files x threads x mode)
         # a sequence whose experiments differ in the number of files runs (stand-alone and joint) with an explicit --read_group file_name,
         # which a mixed sequence would otherwise switch on implicitly for all experiments
